@@ -1222,3 +1222,218 @@ package go9p
 //@   loop 1
 //@     invariant 0 <= ret && ret <= len(old(buf)) && buf == old(buf)[ret:] && offset == old(offset) + ret
 //@     invariant file.Fid != nil && file.Fid.Clnt != nil
+
+// ---------------------------------------------------------------------------
+// Unix file server (ufs.go): C16 (mapping of metadata), C17 (mutations = POSIX calls), C18 (confinement)
+//
+// File-system and path oracles (uninterpreted): the os package is assumed to implement them.
+//   confined(p)  : path p, resolved lexically, is the exported root or below it
+//   isroot(p)    : p is the (cleaned) exported root
+//   rooted(p)    : p is an absolute, cleaned path (result of filepath.Join("/", x))
+//   hasslash(n)  : the string n contains '/'
+//   fi_*(d)      : attributes of the file a FileInfo describes
+
+//@ rec hasslash(n int) bool
+//@ rec rooted(p int) bool
+//@ rec isroot(p int) bool
+//@   axiom forall a int, b int {isroot(a), isroot(b)} :: isroot(a) && isroot(b) ==> a == b
+//@ pure plain(n) = len(n) != 0 && n != "." && n != ".." && !hasslash(n)
+//@ rec confined(p int) bool
+//@   axiom forall p str, n str {confined(cat(cat(p, "/"), n))} :: confined(p) && plain(n) ==> confined(cat(cat(p, "/"), n))
+//@ rec fi_isdir(d iface) bool
+//@ rec fi_mode(d iface) int
+//@ rec haserrno(e iface) bool
+//@ rec errnoof(e iface) int
+
+//@ iface os.FileInfo.IsDir(d) (r)
+//@   ensures  r == fi_isdir(d)
+//@   assigns  nothing
+//@ iface os.FileInfo.Mode(d) (r)
+//@   ensures  r == fi_mode(d)
+//@   assigns  nothing
+//@ iface os.FileInfo.Sys(d) (r)
+//@   ensures  dyntype(r, "*syscall.Stat_t") && ival(r, "*syscall.Stat_t") != nil
+//@   assigns  nothing
+//@ iface os.FileInfo.Size(d) (r)
+//@   assigns  nothing
+//@ iface os.FileInfo.Name(d) (r)
+//@   assigns  nothing
+
+//@ func plainName(name) (r)
+//@   property C18
+//@   at call(strings.Contains) ensures ret == hasslash(arg0)
+//@   ensures  r <==> plain(name)
+//@   assigns  nothing
+
+//@ func omode2uflags(mode) (r)
+//@   property C17
+//@   ensures  r == ite(mode & 3 == 1, os.O_WRONLY, ite(mode & 3 == 2, os.O_RDWR, os.O_RDONLY)) + ite(mode & 16 != 0, os.O_TRUNC, 0)
+//@   assigns  nothing
+
+//@ func dir2QidType(d) (r)
+//@   property C16
+//@   requires d != nil
+//@   ensures  r == ite(fi_isdir(d), 128, 0) + ite(fi_mode(d) & os.ModeSymlink != 0, 2, 0)
+//@   assigns  nothing
+
+//@ func dir2Npmode(d, dotu) (r)
+//@   property C16
+//@   requires d != nil
+//@   ensures  !dotu ==> r == (fi_mode(d) & 511) + ite(fi_isdir(d), 2147483648, 0)
+//@   ensures  dotu ==> r == (fi_mode(d) & 511) + ite(fi_isdir(d), 2147483648, 0) + ite(fi_mode(d) & os.ModeSymlink != 0, 33554432, 0)
+//@                        + ite(fi_mode(d) & os.ModeSocket != 0, 1048576, 0) + ite(fi_mode(d) & os.ModeNamedPipe != 0, 2097152, 0)
+//@                        + ite(fi_mode(d) & os.ModeDevice != 0, 8388608, 0) + ite(fi_mode(d) & os.ModeSetuid != 0, 524288, 0)
+//@                        + ite(fi_mode(d) & os.ModeSetgid != 0, 262144, 0)
+//@   assigns  nothing
+
+//@ func toError(err) (r)
+//@   property C17 C06
+//@   requires err != nil
+//@   at call(errors.As) ensures ret == haserrno(arg0) && (ret ==> e == errnoof(arg0))
+//@   ensures  r != nil && fresh(r) && r.Errornum == ite(haserrno(err), wrap32(errnoof(err)), 5)
+//@   assigns  fresh
+
+//@ func (*ufsFid).stat(fid) (r)
+//@   property C18 C06 C16
+//@   requires fid != nil && confined(fid.path)
+//@   at call(os.Lstat) requires [confined] confined(arg0)
+//@   at call(os.Lstat) ensures ret1 == nil ==> ret0 != nil
+//@   ensures  r == nil ==> fid.st != nil
+//@   ensures  fid.path == old(fid.path) && fid.file == old(fid.file)
+//@   assigns  fid.st, fresh
+
+// A Ufs request: well-formed, its fid carries a *ufsFid whose path is confined to the export.
+//@ pure ufsaux(f) = f != nil && dyntype(f.Aux, "*ufsFid") && ival(f.Aux, "*ufsFid") != nil && confined(ival(f.Aux, "*ufsFid").path)
+//@ pure ufsreq(req) = reqwf(req) && nolocks() && ufsaux(req.Fid) && poolok(req.Conn) && len(req.Tc.Wname) <= 65535
+//@ pure upath(req) = ival(req.Fid.Aux, "*ufsFid").path
+
+//@ func dir2Qid(d) (q)
+//@   property C16 C06
+//@   requires d != nil
+//@   ensures  q != nil && fresh(q) && q.Type == ite(fi_isdir(d), 128, 0) + ite(fi_mode(d) & os.ModeSymlink != 0, 2, 0)
+//@   assigns  fresh
+
+//@ func (*Ufs).Attach(ufs, req)
+//@   property C18 C06
+//@   requires ufs != nil && reqwf(req) && nolocks() && req.Fid != nil
+//@   at call(path/filepath.Join)#1 ensures rooted(ret)
+//@   at call(path/filepath.Join)#2 ensures rooted(before(arg0[1])) && before(arg0[0]) == ufs.Root ==> confined(ret)
+//@   at call((*ufsFid).stat) requires [confined] confined(arg0.path)
+//@   at call((*SrvReq).RespondRattach) requires [aux] ufsaux(req.Fid)
+
+//@ func (*Ufs).Walk(ufs, req)
+//@   property C18 C16 C06
+//@   requires ufs != nil && ufsreq(req) && req.Newfid != nil
+//@   requires req.Newfid.Aux != nil ==> ufsaux(req.Newfid)
+//@   at call(path/filepath.Clean) ensures isroot(ret)
+//@   at call(path/filepath.Dir) ensures confined(arg0) && !isroot(arg0) ==> confined(ret)
+//@   at call(os.Lstat) requires [confined] confined(arg0)
+//@   at call(os.Lstat) ensures ret1 == nil ==> ret0 != nil
+//@   at call((*SrvReq).RespondRwalk) requires [count] len(arg1) == i && i <= len(old(req.Tc.Wname))
+//@   at call((*SrvReq).RespondRwalk) requires [partial] i < len(old(req.Tc.Wname)) ==> fid.path == old(upath(req)) && i > 0
+//@   at call((*SrvReq).RespondRwalk) requires [complete] i == len(old(req.Tc.Wname)) ==> nfid.path == path && confined(nfid.path)
+//@   at call((*SrvReq).RespondRwalk) requires [srcfid] nfid != fid ==> fid.path == old(upath(req))
+//@   loop 1
+//@     invariant 0 <= i && i <= len(tc.Wname) && len(wqids) == len(tc.Wname) && fresh(wqids) && confined(path) && reqwf(req) && nolocks()
+//@     invariant fid != nil && nfid != nil && fid.path == old(upath(req)) && tc == old(req.Tc) && tc.Wname == old(req.Tc.Wname)
+//@     invariant i > 0 ==> true
+
+//@ func (*Ufs).Open(ufs, req)
+//@   property C18 C17 C06
+//@   requires ufsreq(req)
+//@   at call(os.OpenFile) requires [confined] confined(arg0) && arg0 == old(upath(req))
+//@   at call(os.OpenFile) requires [flags] arg1 == ite(old(req.Tc.Mode) & 3 == 1, os.O_WRONLY, ite(old(req.Tc.Mode) & 3 == 2, os.O_RDWR, os.O_RDONLY)) + ite(old(req.Tc.Mode) & 16 != 0, os.O_TRUNC, 0)
+
+//@ func (*Ufs).Remove(ufs, req)
+//@   property C18 C17 C06
+//@   requires ufsreq(req)
+//@   ghost nrm int = 0
+//@   at call(os.Remove) ghost nrm := nrm + 1
+//@   at call(os.Remove) requires [confined] confined(arg0) && arg0 == old(upath(req))
+//@   at call((*SrvReq).RespondRremove) requires [removed] nrm == 1
+//@   ensures  nrm <= 1
+
+//@ func dir2Dir(path, d, dotu, upool) (st, err)
+//@   property C16 C06
+//@   trusted names and user names produced by the OS fit a stat record (each string <= 65535 bytes, record <= 65535 bytes)
+//@   requires d != nil && upool != nil
+//@   at call(strings.LastIndex) ensures -1 <= ret && ret < len(arg0)
+//@   at call(os/user.LookupId) ensures ret1 == nil ==> ret0 != nil
+//@   ensures  st != nil ==> strsok(st) && statsize(st, dotu) <= 65535
+//@   ensures  errwf(err)
+//@   assigns  fresh
+
+//@ func (*Ufs).Stat(ufs, req)
+//@   property C18 C06
+//@   requires ufsreq(req) && req.Conn.Srv.Upool != nil
+
+//@ func (*Ufs).Write(ufs, req)
+//@   property C18 C17 C14 C06
+//@   requires ufsreq(req)
+//@   at call((*os.File).WriteAt) requires [args] arg1 == old(req.Tc.Data) && arg2 == wrap64s(old(req.Tc.Offset))
+
+//@ func (*Ufs).Create(ufs, req)
+//@   property C18 C17 C06
+//@   requires ufsreq(req)
+//@   at call((*Conn).FidGet) ensures ret != nil ==> ufsaux(ret)
+//@   at call(os.Mkdir) requires [confined] confined(arg0) && arg0 == cat(cat(old(upath(req)), "/"), old(req.Tc.Name)) && old(req.Tc.Perm) & 2147483648 != 0 && arg1 == old(req.Tc.Perm) & 511
+//@   at call(os.Symlink) requires [confined] confined(arg1) && arg1 == cat(cat(old(upath(req)), "/"), old(req.Tc.Name)) && arg0 == old(req.Tc.Ext)
+//@   at call(os.Link) requires [confined] confined(arg0) && confined(arg1) && arg1 == cat(cat(old(upath(req)), "/"), old(req.Tc.Name))
+//@   at call(os.OpenFile) requires [confined] confined(arg0) && arg0 == cat(cat(old(upath(req)), "/"), old(req.Tc.Name))
+//@   at call((*SrvReq).RespondRcreate) requires [moved] fid.path == cat(cat(old(upath(req)), "/"), old(req.Tc.Name)) && confined(fid.path)
+
+// directory snapshot kept in a ufsFid: ends are the running totals of the packed entries
+//@ pure snapok(f) = (forall k int :: 0 <= k && k < len(f.direntends) ==> 0 < f.direntends[k] && f.direntends[k] <= len(f.dirents))
+//@      && (forall k int :: 0 < k && k < len(f.direntends) ==> f.direntends[k-1] < f.direntends[k])
+
+//@ extern sort.SearchInts(a, x) (r)
+//@   requires forall k int :: 0 < k && k < len(a) ==> a[k-1] <= a[k]
+//@   ensures  0 <= r && r <= len(a)
+//@   ensures  forall k int :: 0 <= k && k < r ==> a[k] < x
+//@   ensures  r < len(a) ==> a[r] >= x
+//@   assigns  nothing
+
+//@ func lookup(uid, group) (id, err)
+//@   property C17 C06
+//@   ensures  err != nil ==> fresh(err)
+//@   assigns  fresh
+
+//@ func (*Ufs).Read(ufs, req)
+//@   property C06 C12 C14 C15 C18
+//@   requires ufsreq(req) && req.Conn.Srv.Upool != nil && req.Tc.Count + 24 <= req.Conn.Msize && len(req.Rc.Buf) >= req.Conn.Msize
+//@   requires snapok(ival(req.Fid.Aux, "*ufsFid"))
+//@   at call(os.OpenFile) requires [confined] confined(arg0)
+//@   at call((*os.File).ReadAt) requires [args] len(arg1) == old(req.Tc.Count) && arg2 == wrap64s(old(req.Tc.Offset))
+//@   at call((*os.File).ReadAt) ensures 0 <= ret0 && ret0 <= len(arg1)
+//@   at call((*os.File).Readdir) ensures forall k int :: 0 <= k && k < len(ret0) ==> ret0[k] != nil
+//@   at call(SetRreadCount) requires [count] arg1 <= old(req.Tc.Count)
+//@   loop 1
+//@     invariant 0 <= i && i <= len(fid.dirs) && reqwf(req) && nolocks() && fid != nil && rc == req.Rc && rc != nil && tc == req.Tc
+//@     invariant forall k int :: 0 <= k && k < len(fid.dirs) ==> fid.dirs[k] != nil
+//@     invariant rreadinit(rc) && len(rc.Pkt) == 11 + old(req.Tc.Count) && tc.Count == old(req.Tc.Count) && tc.Offset == 0
+//@     invariant 0 <= count && count == len(fid.dirents) && confined(fid.path)
+//@     invariant len(fid.direntends) > 0 ==> fid.direntends[len(fid.direntends)-1] == count
+//@     invariant snapok(fid)
+
+//@ func (*Ufs).FidDestroy(ufs, sfid)
+//@   property C06 C11
+//@   requires sfid != nil && (sfid.Aux != nil ==> dyntype(sfid.Aux, "*ufsFid") && ival(sfid.Aux, "*ufsFid") != nil)
+
+//@ func (*Ufs).Clunk(ufs, req)
+//@   property C06
+//@   requires reqwf(req) && nolocks()
+
+//@ func (*Ufs).Wstat(u, req)
+//@   property C17 C18 C06
+//@   requires u != nil && ufsreq(req)
+//@   at call(os.Chmod) requires [args] confined(arg0) && arg0 == old(upath(req)) && old(req.Tc.Dir.Mode) != 4294967295
+//@   at call(os.Chown) requires [args] confined(arg0) && arg0 == old(upath(req))
+//@   at call(path/filepath.Join)#1 ensures rooted(ret)
+//@   at call(path/filepath.Join)#2 ensures rooted(before(arg0[1])) && before(arg0[0]) == u.Root ==> confined(ret)
+//@   at call(path.Split) ensures confined(arg0) ==> confined(ret0)
+//@   at call(path/filepath.Join)#3 ensures confined(before(arg0[0])) && plain(before(arg0[1])) ==> confined(ret)
+//@   at call(syscall.Rename) requires [args] arg0 == old(upath(req)) && confined(arg0) && confined(arg1)
+//@   at call(os.Truncate) requires [args] confined(arg0) && old(req.Tc.Dir.Length) != 18446744073709551615 && arg1 == wrap64s(old(req.Tc.Dir.Length))
+//@   at call(os.Stat) requires [confined] confined(arg0)
+//@   at call(os.Chtimes) requires [args] confined(arg0)
+//@   at call(os.Stat) ensures ret1 == nil ==> ret0 != nil
